@@ -42,6 +42,7 @@ func init() {
 	ops["conn"] = opConn
 	ops["connburst"] = opConnBurst
 	ops["connka"] = opConnKA
+	ops["conndeadline"] = opConnDeadline
 }
 
 // ---------------------------------------------------------------- scripted transport
@@ -61,6 +62,7 @@ type scriptConn struct {
 	idle     bool // Watch is blocked in Read with nothing to read
 	reads    int
 	endReads int // Read calls answered with readEnd
+	setDeadlineCalls int
 	writes   []writeRec
 	gates    map[int32]chan struct{} // held Write calls by sequence number
 	arrived  map[int32]bool
@@ -198,7 +200,12 @@ func (c *scriptConn) Close() error {
 
 func (c *scriptConn) LocalAddr() net.Addr                { return nil }
 func (c *scriptConn) RemoteAddr() net.Addr               { return nil }
-func (c *scriptConn) SetDeadline(t time.Time) error      { return nil }
+func (c *scriptConn) SetDeadline(t time.Time) error {
+	c.mu.Lock()
+	c.setDeadlineCalls++
+	c.mu.Unlock()
+	return nil
+}
 func (c *scriptConn) SetReadDeadline(t time.Time) error  { return nil }
 func (c *scriptConn) SetWriteDeadline(t time.Time) error { return nil }
 
@@ -491,6 +498,7 @@ func opConn(args []string) (out string) {
 	var fedBad []int32
 	rawBad := map[string]bool{}
 	readEnded := false
+	cancelSeen := false
 	for _, ev := range args[1:] {
 		switch {
 		case ev == "settle":
@@ -502,6 +510,7 @@ func opConn(args []string) (out string) {
 			r.tr.feed(h)
 			readEnded = true
 		case ev == "cancel":
+			cancelSeen = true
 			r.cancelAll()
 			r.note()
 		case ev == "eof":
@@ -751,6 +760,12 @@ func opConn(args []string) (out string) {
 			fail("C14:frame-differs-from-marshal-encoding")
 		}
 	}
+	for i, c := range r.callers {
+		if c.returned && c.seq > 0 && c.result == "err:invalidseq" {
+			// every positive 31-bit number is a sequence number (SMPP v5 §3.2.1.4: 0x00000001..0x7FFFFFFF)
+			fail(fmt.Sprintf("C05:positive-sequence-number-refused caller=%d seq=%d", i, c.seq))
+		}
+	}
 	// C05: own response / no leak
 	for i, c := range r.callers {
 		if c.kind == "s" && c.returned && strings.HasPrefix(c.result, "resp:") && c.respSeq != c.seq {
@@ -806,6 +821,23 @@ func opConn(args []string) (out string) {
 	}
 	if closeReturned && !done0 {
 		fail("C15:done-not-closed-after-close-returned")
+	}
+	closeStarted := false
+	for _, c := range r.callers {
+		if c.kind == "c" && c.started {
+			closeStarted = true
+		}
+	}
+	if r.watchRet && !readEnded && !cancelSeen && !closeStarted {
+		// nothing the property lists as a terminating event happened (no EOF, read error, lost framing, cancel, Close): every
+		// frame fed was decodable or answerable by generic_nack, yet the receive loop ended
+		fail("C16:watch-ended-without-a-terminating-event")
+	}
+	if r.tr.setDeadlineCalls > 0 {
+		// SetDeadline moves the READ deadline too: whoever calls it (the library arms reads with SetReadDeadline in Watch and
+		// writes with SetWriteDeadline in Send) replaces the deadline Watch armed — the read timeout no longer fires when
+		// ReadTimeout says, or fires WriteTimeout after an unrelated write
+		fail("C15:read-deadline-overwritten-outside-Watch")
 	}
 	if readEnded && (!connDone || !r.watchRet) {
 		fail("C15:teardown-after-transport-end done=" + fmt.Sprint(connDone) + " watch=" + fmt.Sprint(r.watchRet))
@@ -1325,6 +1357,9 @@ func connInterleavings2(emit func(string)) {
 func init() {
 	gens["C05"] = func(r *gen.Rng, tier string, emit func(string)) {
 		connInterleavings2(emit)
+		// the ends of the sequence-number range are ordinary numbers
+		emit("conn s:2147483647:-,s:1:-,s:2147483646:- sub0 sub1 sub2 wret0 wret1 wret2 ans2 ans1 ans0")
+		emit("conn n:2147483647:-,n:1:- sub0 sub1 wret0 wret1")
 		// clause 3: responses built for several pipelined requests before any is sent
 		emit("respbatch 41 42 2147483647")
 		for i := 0; i < scale(tier, 3, 20); i++ {
@@ -1355,6 +1390,9 @@ func init() {
 		for i := 0; i < scale(tier, 6, 60); i++ {
 			emit(fmt.Sprintf("connburst %d %d %d", r.Range(2, 12), r.Range(5, 40), r.Intn(1<<30)))
 		}
+		for mask := 0; mask < 64; mask++ {
+			emit(fmt.Sprintf("conndeadline %d", mask))
+		}
 	}
 	gens["C15"] = func(r *gen.Rng, tier string, emit func(string)) {
 		for _, v := range []string{"answered-cancel", "answered-eof", "unanswered", "unanswered-unbind-ok", "unanswered-undrained", "writefail"} {
@@ -1365,10 +1403,69 @@ func init() {
 		}
 	}
 	gens["C16"] = func(r *gen.Rng, tier string, emit func(string)) {
+		// a request that failed locally (writes broken / non-positive number) or was given up leaves nothing behind: the peer
+		// may use that number for its own PDUs afterwards, and each is delivered
+		emit("conn s:7:- brk sub0 unsol:7:1 unsol:7:2 unsol:8:3")
+		emit("conn f7;s:7:-,s:9:0 brk sub0 sub1 unsol:7:1 unsol:9:2 unsol:7:3")
+		emit("conn s:7:- sub0 wret0 dl0 unsol:7:1 unsol:7:2 unsol:8:3")
 		for i := 0; i < scale(tier, 300, 1500); i++ {
 			emit(genConnScenario(r, connProfile{submit: r.Range(0, 3), unsolPct: 14, badPct: 14, drainPct: 4, teardownPct: 3, events: r.Range(5, 24), frag: true, raw: true, lateAnswer: r.Chance(25)}))
 		}
 	}
+}
+
+// ---------------------------------------------------------------- C14: deadline calls that fail
+
+// dlConn records what is written and lets the k-th SetWriteDeadline call fail when bit k of mask is set.
+type dlConn struct {
+	scriptConn
+	mask  int
+	calls int
+	out   []byte
+}
+
+func (c *dlConn) Write(p []byte) (int, error) { c.out = append(c.out, p...); return len(p), nil }
+func (c *dlConn) SetWriteDeadline(t time.Time) error {
+	k := c.calls
+	c.calls++
+	if c.mask>>uint(k)&1 == 1 {
+		return errors.New("scripted transport: set deadline failed")
+	}
+	return nil
+}
+func (c *dlConn) SetDeadline(t time.Time) error { return c.SetWriteDeadline(t) }
+
+// opConnDeadline: `conndeadline <mask>` — three Send calls in a row on a transport some of whose deadline calls fail: whatever
+// the pattern, the octets on the wire are exactly the frames of the calls that returned nil, in order (a call that reports
+// failure has contributed nothing, a frame on the wire belongs to a call that reported success).
+func opConnDeadline(args []string) string {
+	if len(args) != 1 {
+		return "bad-op"
+	}
+	tr := &dlConn{mask: atoi(args[0])}
+	tr.cond = sync.NewCond(&tr.mu)
+	conn := smpp.NewConn(context.Background(), tr)
+	pdus := []interface{}{
+		&pdu.EnquireLink{Header: pdu.Header{Sequence: 1}},
+		&pdu.SubmitSM{Header: pdu.Header{Sequence: 2}, ServiceType: "x", Message: pdu.ShortMessage{Message: []byte("hello")}},
+		&pdu.DeliverSMResp{Header: pdu.Header{Sequence: 3}},
+	}
+	var want []byte
+	res := ""
+	for _, p := range pdus {
+		f := frameOf(p)
+		if err := conn.Send(p); err == nil {
+			want = append(want, f...)
+			res += "1"
+		} else {
+			res += "0"
+		}
+	}
+	out := fmt.Sprintf("results=%s octets=%d", res, len(tr.out))
+	if !bytes.Equal(want, tr.out) {
+		return out + " !! C14:wire-differs-from-frames-of-successful-calls mask=" + args[0]
+	}
+	return out
 }
 
 // ---------------------------------------------------------------- C14: unscripted burst of concurrent senders
